@@ -32,7 +32,6 @@ CONSTANTS
   ProgSel,     \* "core" | "len1" | "len2"
   LegCounts,   \* e.g. {2, 3}
   Dirs,        \* subset of {"asc", "desc"}
-  CutFix,      \* FALSE: analyzeCuts as coded (finding F-C08-1); TRUE: repaired
   EmitMod,     \* 0: no export; else terminal states with Hash % EmitMod = EmitRem are printed
   EmitRem
 
@@ -44,7 +43,7 @@ Str(n)  == V("str", n)          \* 1 = "a", 2 = "b", 19 = "s"
 NULL    == V("null", 0)
 ABS     == V("abs", 0)          \* the field is not present
 EMISS   == V("emiss", 0)        \* error("missing") as a value
-Nullish(v) == v.t = "null" \/ v.t = "abs" \/ v.t = "emiss"
+Nullish(v) == v.t = "null" \/ v.t = "abs" \/ v.t = "emiss" \/ v.t = "nt"     \* "nt": null(time)
 
 Fields == {"k", "g", "u", "x", "y", "z", "a", "_"}
 Row0   == TLCEval([f \in Fields |-> ABS])
@@ -141,7 +140,8 @@ Curated == <<
   << <<K2, K2>>, <<K2>> >>,                          \* one key everywhere
   << <<KN>>, <<KM>>, <<KN, KM>> >>,                  \* only null-ish keys
   << <<K1>>, <<K3>>, <<K2>>, <<K1, K3>> >>,          \* load order # key order, late overlap
-  << <<K3, KS, KN>>, <<K1, K2, K3>>, <<K2, KM>> >>   \* three rows per object
+  << <<K3, KS, KN>>, <<K1, K2, K3>>, <<K2, KM>> >>,  \* three rows per object
+  << <<K1, K1>>, <<K2, K2>>, <<K3, K3>> >>           \* three disjoint two-row objects whose x ranges overlap ([1,2] [1,-] [2,-])
 >>
 
 \* Layout universes, built as SEQUENCES with plain arithmetic (a constant
@@ -222,6 +222,8 @@ SlicerAll(metas, lo, stash, smin, smax) ==
 \*   AG count() by g      AK count() by k     XG sum(x) by g  XK sum(x) by k
 \*   VG avg(x) by g       LG collect(u) by g  UK union(g) by k
 \*   A0 count()           X0 sum(x)           (compiled to summarize | yield)
+\*   AB count() by k:=bucket(k,2)   (group key = an order-preserving, many-to-one function of the pool key,
+\*                                   under the key's own name: every int key falls into one bucket)
 Kind(op) ==
   CASE op \in {"WG", "WK"} -> "filter"
     [] op \in {"CK", "CU", "CZ"} -> "cut"
@@ -233,7 +235,7 @@ Kind(op) ==
     [] op \in {"T1", "T2"} -> "tail"
     [] op = "UQ" -> "uniq"
     [] op \in {"YU", "Ya"} -> "yield"
-    [] op \in {"AG", "AK", "XG", "XK", "VG", "LG", "UK", "A0s", "X0s"} -> "summarize"
+    [] op \in {"AG", "AK", "AB", "XG", "XK", "VG", "LG", "UK", "A0s", "X0s"} -> "summarize"
 
 SortKeyOf(op) ==
   CASE op = "SU" -> [f |-> "u", desc |-> FALSE]
@@ -241,7 +243,7 @@ SortKeyOf(op) ==
     [] op = "SG" -> [f |-> "g", desc |-> FALSE]
     [] op = "SX" -> [f |-> "x", desc |-> FALSE]
     [] op = "SXR" -> [f |-> "x", desc |-> TRUE]
-GroupKey(op) == CASE op \in {"AG", "XG", "VG", "LG"} -> "g" [] op \in {"AK", "XK", "UK"} -> "k" [] OTHER -> ""
+GroupKey(op) == CASE op \in {"AG", "XG", "VG", "LG"} -> "g" [] op \in {"AK", "AB", "XK", "UK"} -> "k" [] OTHER -> ""
 Limit(op) == IF op \in {"H1", "T1"} THEN 1 ELSE 2
 
 \* cut assignments <<lhs, rhs>>
@@ -257,7 +259,7 @@ Expand(p) == IF p = <<>> THEN <<>>
 \* Well-formedness: an operator only refers to fields its input has.
 Needs(op) ==
   CASE op \in {"WG", "SG", "AG"} -> {"g"}
-    [] op \in {"WK", "RZ", "DK", "AK"} -> {"k"}
+    [] op \in {"WK", "RZ", "DK", "AK", "AB"} -> {"k"}
     [] op = "CK" -> {"k", "u", "g"}
     [] op = "CU" -> {"u", "g"}
     [] op = "CZ" -> {"k", "u"}
@@ -278,7 +280,7 @@ Schema(op, sc) ==
     [] op = "DK" -> sc \ {"k"}
     [] op = "DX" -> sc \ {"x"}
     [] op \in {"AG", "XG", "VG", "LG"} -> {"g", "a"}
-    [] op \in {"AK", "XK", "UK"} -> {"k", "a"}
+    [] op \in {"AK", "AB", "XK", "UK"} -> {"k", "a"}
     [] op \in {"A0", "X0", "YU"} -> {"_"}
     [] OTHER -> sc
 RECURSIVE WellFormedFrom(_, _)
@@ -289,11 +291,11 @@ WellFormedFrom(p, sc) ==
 WellFormed(p) == WellFormedFrom(p, {"k", "g", "u", "x"})
 
 AllOps == <<"WG", "WK", "CK", "CU", "CZ", "PY", "PK", "RZ", "DK", "DX", "SU", "SR", "SG", "SX", "SXR",
-           "H1", "H2", "T1", "T2", "UQ", "YU", "AG", "AK", "XG", "XK", "VG", "LG", "UK", "A0", "X0">>
+           "H1", "H2", "T1", "T2", "UQ", "YU", "AG", "AK", "AB", "XG", "XK", "VG", "LG", "UK", "A0", "X0">>
 CoreProgs == << <<>>, <<"WG">>, <<"WK">>, <<"CK", "H2">>, <<"PY", "T2">>, <<"H1">>, <<"H2">>, <<"T2">>, <<"SU">>, <<"SG">>,
                <<"AG">>, <<"AK">>, <<"XG">>, <<"VG">>, <<"LG">>, <<"A0">>, <<"WK", "AK">>, <<"UQ">>, <<"AG", "SG">>,
                <<"SR", "H2">>, <<"RZ", "T1">>, <<"DK", "H2">>,
-               <<"CU">>, <<"CU", "H2">>, <<"SXR">> >>      \* CU reaches the known defect F1; SXR a descending sort over nulls
+               <<"CU">>, <<"CU", "H2">>, <<"CZ", "T2">>, <<"SXR">>, <<"SX">>, <<"AB">>, <<"WG", "AB">> >>      \* cuts without / renaming the pool key; a descending sort over nulls
 Len1Progs == << <<>> >> \o [i \in 1..Len(AllOps) |-> <<AllOps[i]>>]
 Len2Progs == Len1Progs \o [i \in 1..(Len(AllOps) * Len(AllOps)) |-> <<AllOps[((i - 1) \div Len(AllOps)) + 1], AllOps[((i - 1) % Len(AllOps)) + 1]>>]
 PROGS == TLCEval(
@@ -305,18 +307,19 @@ Progs == {PROGS[i] : i \in 1..Len(PROGS)}
 \* ================================================================ planner
 NoKey == [f |-> "", desc |-> FALSE]
 
-\* op.go analyzeCuts: the scoreboard starts with the input key and is never
-\* cleared of it, although cut emits only the assigned fields (F-C08-1).
-RECURSIVE CutBoard(_, _)
-CutBoard(args, board) ==
-  IF args = <<>> THEN board
+\* op.go analyzeCuts: the scoreboard starts with the input key; an assignment whose
+\* right-hand side is on the scoreboard puts its left-hand side there (and marks it
+\* assigned), any other assignment removes its left-hand side; in the end only
+\* assigned fields stay (cut emits only the assigned fields), and exactly one field
+\* must remain.
+RECURSIVE CutBoard(_, _, _)
+CutBoard(args, board, asg) ==
+  IF args = <<>> THEN board \cap asg
   ELSE LET l == args[1][1]  r == args[1][2]
-       IN CutBoard(Tail(args), IF r \in board THEN board \cup {l} ELSE board \ {l})
+       IN IF r \in board THEN CutBoard(Tail(args), board \cup {l}, asg \cup {l})
+          ELSE CutBoard(Tail(args), board \ {l}, asg)
 AnalyzeCuts(args, key) ==
-  LET start == IF CutFix THEN {} ELSE {key.f}
-      \* repaired version: only assignments from the input key carry the order
-      board == IF CutFix THEN {args[i][1] : i \in {j \in 1..Len(args) : args[j][2] = key.f}}
-               ELSE CutBoard(args, start)
+  LET board == CutBoard(args, {key.f}, {})
   IN IF Cardinality(board) # 1 THEN NoKey ELSE [f |-> CHOOSE x \in board : TRUE, desc |-> key.desc]
 
 \* op.go analyzeSortKeys
@@ -353,8 +356,18 @@ ConcPath(ops, k, key) ==
 RECURSIVE LeadFilters(_)
 LeadFilters(ops) == IF ops # <<>> /\ Kind(ops[1]) = "filter" THEN <<ops[1]>> \o LeadFilters(Tail(ops)) ELSE <<>>
 
-PO(op, part) == [op |-> op, part |-> part]          \* part: "" | "out" | "in"
-Plain(ops) == TLCEval([i \in 1..Len(ops) |-> PO(ops[i], "")])
+\* an operator of a plan: part = "" | "out" | "in" (partials); sd = InputSortDir of a summarize
+\* (optimizer.go propagateSortKeyOp: the input is known to be sorted on the field the group
+\* key is -- or is an order-preserving function of: bucket, ceil, floor, round, every)
+NoSd == [on |-> FALSE, desc |-> FALSE]
+PO(op, part) == [op |-> op, part |-> part, sd |-> NoSd]
+RECURSIVE AnnotFrom(_, _)
+AnnotFrom(ops, key) ==
+  IF ops = <<>> THEN <<>>
+  ELSE LET op == ops[1]
+           on == Kind(op) = "summarize" /\ key # NoKey /\ GroupKey(op) # "" /\ GroupKey(op) = key.f
+       IN <<[op |-> op, part |-> "", sd |-> [on |-> on, desc |-> key.desc]]>> \o AnnotFrom(Tail(ops), AnalyzeKey(op, key))
+Annot(ops, desc) == AnnotFrom(ops, [f |-> "k", desc |-> desc])
 
 \* optimizer.go optimizeSourcePaths + Parallelize + parallelizeSeqScan + one
 \* liftIntoParPaths at the scatter (optimizeParallels visits each position once).
@@ -363,15 +376,16 @@ PlanOf(prog, desc) ==
       filter == LeadFilters(ops)
       chain  == SubSeq(ops, Len(filter) + 1, Len(ops))
       cp     == ConcPath(chain, 1, [f |-> "k", desc |-> desc])
-      legs0  == Plain(SubSeq(chain, 1, cp.n))
-      tail0  == Plain(SubSeq(chain, cp.n + 1, Len(chain)))
+      ann    == Annot(chain, desc)
+      legs0  == SubSeq(ann, 1, cp.n)
+      tail0  == SubSeq(ann, cp.n + 1, Len(chain))
       mc0    == IF cp.mrg THEN MergeC(cp.key.f, cp.key.desc) ELSE NoCmp
       base   == [slicer |-> cp.ord, filter |-> filter, legs |-> legs0, fan |-> IF cp.mrg THEN "merge" ELSE "combine",
                  mc |-> mc0, tail |-> tail0, nullsmax |-> TRUE]
   IN IF tail0 = <<>> THEN base
      ELSE LET op == tail0[1].op IN
        CASE Kind(op) = "summarize" ->
-              [base EXCEPT !.legs = Append(legs0, PO(op, "out")), !.tail = <<PO(op, "in")>> \o Tail(tail0)]
+              [base EXCEPT !.legs = Append(legs0, [tail0[1] EXCEPT !.part = "out"]), !.tail = <<[tail0[1] EXCEPT !.part = "in"]>> \o Tail(tail0)]
          [] Kind(op) = "sort" ->
               \* only an ascending, nulls-last sort is lifted: the merge that replaces it
               \* orders by the key with nulls as the largest value (op.Reverse ||
@@ -446,7 +460,7 @@ InsertInt(x, t) == IF t = <<>> THEN <<x>> ELSE IF x <= t[1] THEN <<x>> \o t ELSE
 RECURSIVE SortInts(_)
 SortInts(s) == IF s = <<>> THEN <<>> ELSE InsertInt(s[1], SortInts(Tail(s)))
 
-AggKind(op) == CASE op \in {"AG", "AK", "A0s"} -> "count" [] op \in {"XG", "XK", "X0s"} -> "sum"
+AggKind(op) == CASE op \in {"AG", "AK", "AB", "A0s"} -> "count" [] op \in {"XG", "XK", "X0s"} -> "sum"
                  [] op = "VG" -> "avg" [] op = "LG" -> "collect" [] op = "UK" -> "union"
 Ints(rows, f) == LET sel == SelectSeq(rows, LAMBDA r : Get(r, f).t = "int") IN TLCEval([i \in 1..Len(sel) |-> Get(sel[i], f).n])
 AggOf(op, rows) ==
@@ -464,33 +478,61 @@ AggCombine(op, parts) ==
     [] AggKind(op) = "collect" -> V("bag", SortInts(Concat(TLCEval([i \in 1..Len(parts) |-> parts[i].n]))))
     [] AggKind(op) = "union"   -> V("set", UNION {parts[i].n : i \in 1..Len(parts)})
 
+\* the group key of a row: AB buckets the pool key (every int into one bucket t0, null
+\* into null(time)); the partials-in stage groups on the field itself
+BK(v) == CASE v.t = "int" -> V("t0", 0) [] v.t = "null" -> V("nt", 0) [] OTHER -> V("bad", 0)
+KeyVal(o, r) == IF o.op = "AB" /\ o.part # "in" THEN BK(Get(r, "k")) ELSE Get(r, GroupKey(o.op))
+
 \* distinct group keys in order of first appearance
 RECURSIVE FirstKeys(_, _, _)
-FirstKeys(rows, kf, seen) ==
+FirstKeys(rows, o, seen) ==
   IF rows = <<>> THEN <<>>
-  ELSE LET k == Get(rows[1], kf)
-       IN IF k \in seen THEN FirstKeys(Tail(rows), kf, seen) ELSE <<k>> \o FirstKeys(Tail(rows), kf, seen \cup {k})
+  ELSE LET k == KeyVal(o, rows[1])
+       IN IF k \in seen THEN FirstKeys(Tail(rows), o, seen) ELSE <<k>> \o FirstKeys(Tail(rows), o, seen \cup {k})
+
+GroupRow(o, k, grp) ==
+  [Row0 EXCEPT ![GroupKey(o.op)] = k,
+               !["a"] = IF o.part = "in" THEN AggCombine(o.op, TLCEval([j \in 1..Len(grp) |-> grp[j]["a"]]))
+                        ELSE AggOf(o.op, grp)]
+
+\* groupby.Op with InputSortDir (o.sd.on): after a value whose key is larger than
+\* every key so far (Aggregator.updateMaxTableKey) the groups below that maximum are
+\* complete and are released at once, in key order (readTable(flush = false) +
+\* SortStableFunc); the rest at EOS.  This is only sound when the input really is
+\* sorted on the key: otherwise a released group comes back as a second row.
+KCmp(o, a, b) == IF o.sd.desc THEN CmpV(b, a, TRUE) ELSE CmpV(a, b, TRUE)
+RECURSIVE SFold(_, _, _, _, _)
+SFold(o, rows, groups, maxk, acc) ==      \* groups: sequence of [k, rs]; maxk: [some, v]
+  IF rows = <<>> THEN acc \o TLCEval([i \in 1..Len(groups) |-> GroupRow(o, groups[i].k, groups[i].rs)])
+  ELSE LET r  == rows[1]
+           k  == KeyVal(o, r)
+           nm == IF ~maxk.some \/ KCmp(o, k, maxk.v) > 0 THEN Some(k) ELSE maxk
+           ix == {i \in 1..Len(groups) : groups[i].k = k}
+           g2 == IF ix = {} THEN Append(groups, [k |-> k, rs |-> <<r>>])
+                 ELSE [groups EXCEPT ![CHOOSE i \in ix : TRUE] = [k |-> k, rs |-> Append(@.rs, r)]]
+           rel  == SelectSeq(g2, LAMBDA g : KCmp(o, g.k, nm.v) < 0)
+           keep == SelectSeq(g2, LAMBDA g : KCmp(o, g.k, nm.v) >= 0)
+           relrows == TLCEval([i \in 1..Len(rel) |-> GroupRow(o, rel[i].k, rel[i].rs)])
+       IN SFold(o, Tail(rows), keep, nm, acc \o StableSort(relrows, C(GroupKey(o.op), o.sd.desc, TRUE, FALSE)))
 
 \* groupby.Op: part = "" (values in, results out), "out" (values in, partials
-\* out) or "in" (partials in).  With sorted input on the group key
-\* (InputSortDir) the rows are released in key order, otherwise in map order.
+\* out) or "in" (partials in).  Without InputSortDir the rows come out in map order.
 Summarize(o, st) ==
   LET kf   == GroupKey(o.op)
       rows == st.s
-      out  == IF kf = "" THEN
-                 IF rows = <<>> THEN <<>>
+      bad  == o.op = "AB" /\ o.part # "in" /\ \E i \in 1..Len(rows) : KeyVal(o, rows[i]).t = "bad"   \* bucket() of a non-time: not modelled
+      byk  == C(kf, o.sd.desc, TRUE, FALSE)
+  IN IF kf = "" THEN
+          Stream(IF rows = <<>> THEN <<>>
                  ELSE <<[Row0 EXCEPT !["a"] = IF o.part = "in" THEN AggCombine(o.op, TLCEval([i \in 1..Len(rows) |-> rows[i]["a"]]))
-                                                ELSE AggOf(o.op, rows)]>>
-              ELSE LET ks == FirstKeys(rows, kf, {})
-                   IN TLCEval([i \in 1..Len(ks) |->
-                         LET grp == SelectSeq(rows, LAMBDA r : Get(r, kf) = ks[i])
-                         IN [Row0 EXCEPT ![kf] = ks[i],
-                                         !["a"] = IF o.part = "in" THEN AggCombine(o.op, TLCEval([j \in 1..Len(grp) |-> grp[j]["a"]]))
-                                                  ELSE AggOf(o.op, grp)]])
-      streaming == kf # "" /\ st.by # NoCmp /\ st.by.f = kf
-      byk  == IF streaming THEN [st.by EXCEPT !.tb = FALSE] ELSE NoCmp
-      srt  == IF streaming THEN StableSort(out, byk) ELSE out
-  IN Stream(srt, streaming /\ Distinct(srt, byk), byk, st.det)
+                                                ELSE AggOf(o.op, rows)]>>, FALSE, NoCmp, st.det)
+     ELSE IF o.sd.on THEN
+          LET out == SFold(o, rows, <<>>, NONE, <<>>)
+              sortedIn == st.by # NoCmp /\ st.by.f = kf /\ st.by.desc = o.sd.desc
+          IN Stream(out, sortedIn /\ Distinct(out, byk), IF sortedIn THEN byk ELSE NoCmp, st.det /\ ~bad)
+     ELSE LET ks == FirstKeys(rows, o, {})
+          IN Stream(TLCEval([i \in 1..Len(ks) |-> GroupRow(o, ks[i], SelectSeq(rows, LAMBDA r : KeyVal(o, r) = ks[i]))]),
+                    FALSE, NoCmp, st.det /\ ~bad)
 
 Uniq(s) == SelectSeq(TLCEval([i \in 1..Len(s) |-> [r |-> s[i], keep |-> i = 1 \/ s[i] # s[i-1]]]), LAMBDA e : e.keep)
 
@@ -621,15 +663,27 @@ ParResultOf(pl, rw, d, prts) ==
 SeqResultOf(pl, rw, m, lor, d, pg) ==
   LET ps == IF pl.slicer THEN SlicerAll(m, lor, <<>>, NONE, NONE) ELSE TLCEval([i \in 1..Len(lor) |-> <<lor[i]>>])
       ops == Expand(pg)
-  IN ApplyOps(Plain(SubSeq(ops, Len(pl.filter) + 1, Len(ops))), ScanStream(rw, ps, d, pl.filter, pl.slicer))
+  IN ApplyOps(Annot(SubSeq(ops, Len(pl.filter) + 1, Len(ops)), d), ScanStream(rw, ps, d, pl.filter, pl.slicer))
 
-\* known defect of the unchanged tree, modelled as coded:
-\*  F1: a cut in the legs removes the field the fan-in merges on
-\* (F2 -- a lifted descending sort puts nulls last, the merge first -- was repaired
-\* in the repository: such sorts are no longer lifted, see PlanOf.)
-TaintOf(pl, rw, d, prts) ==
-  IF pl.fan = "merge" /\ \E i \in 1..Len(pl.legs) : Kind(pl.legs[i].op) = "cut" /\ \A j \in 1..Len(CutArgs(pl.legs[i].op)) : CutArgs(pl.legs[i].op)[j][1] # pl.mc.f
-  THEN {"F1"} ELSE {}
+\* Is the key-ordered merge load-bearing in this terminal state?  The tail starts with a
+\* streaming group-by (sd.on) and there is an order of the legs in which their outputs,
+\* joined by an unordered combine instead of the merge, make that group-by release a
+\* group that comes back (a different result than the sequential one).  Such cases are
+\* always exported: they are the ones on which concurrentPath's choice of the fan-in and
+\* propagateSortKeyOp's InputSortDir have to agree.
+LegPerms(n) == {p \in [1..n -> 1..n] : \A i \in 1..n : \A j \in 1..n : p[i] = p[j] => i = j}
+SensOf(pl, rw, d, prts, seq) ==
+  /\ pl.fan = "merge" /\ pl.tail # <<>> /\ pl.tail[1].sd.on /\ seq.det
+  /\ LET outs == TLCEval([l \in DOMAIN prts |-> LegOutOf(pl, rw, d, prts[l])])
+     IN \E p \in LegPerms(Len(prts)) :
+          ~Equiv(ApplyOps(pl.tail, CombineStreams(TLCEval([i \in 1..Len(prts) |-> outs[p[i]]]))), seq)
+
+\* Known defects of the tree, modelled as coded, would be named here and exempted
+\* from ResultOK (DESIGN 2.4).  None at present: F1 (a cut that does not assign the
+\* pool key kept it as the merge key) and F2 (a lifted descending sort against the
+\* nulls-max merge) were repaired in the repository and the transcription above
+\* follows the repaired code.
+TaintOf(pl, rw, d, prts) == {}
 
 RowJson(r) == TLCEval([f \in {g \in Fields : r[g].t # "abs"} |-> r[f]])
 RowsJson(s) == TLCEval([i \in 1..Len(s) |-> RowJson(s[i])])
@@ -719,7 +773,7 @@ CaseJson(seq, par) ==
    desc |-> vDesc, prog |-> cProg, n |-> vLegs, plan |-> PlanText(cPlan), lorder |-> cLorder,
    served |-> TLCEval([i \in 1..Len(vServed) |-> [leg |-> vServed[i][1], objs |-> vServed[i][2]]]),
    seq |-> [rows |-> RowsJson(seq.s), mode |-> Mode(seq), det |-> seq.det, byf |-> seq.by.f],
-   parrows |-> RowsJson(par.s), taint |-> Taint]
+   parrows |-> RowsJson(par.s), taint |-> Taint, sens |-> SensOf(cPlan, cRows, vDesc, sParts, seq)]
 
 Hash == Len(vServed) + SumSeq(TLCEval([i \in 1..Len(vServed) |-> vServed[i][1] * i])) + Len(cProg) * 7 + Len(cLay) * 3 + vLegs + (IF vDesc THEN 1 ELSE 0)
            + SumSeq(TLCEval([i \in 1..Len(cLorder) |-> cLorder[i] * i])) + SumSeq(TLCEval([i \in 1..Len(cLay) |-> Len(cLay[i]) * i * 5]))
@@ -729,7 +783,7 @@ Hash == Len(vServed) + SumSeq(TLCEval([i \in 1..Len(vServed) |-> vServed[i][1] *
 ResultOK ==
   Terminal =>
     LET seq == SeqResult  par == ParResult
-        emit == EmitMod > 0 /\ Hash % EmitMod = EmitRem
+        emit == EmitMod > 0 /\ (Hash % EmitMod = EmitRem \/ SensOf(cPlan, cRows, vDesc, sParts, seq))
     IN /\ emit => PrintT(ToJson(CaseJson(seq, par)))
        /\ (seq.det /\ Taint = {}) => (par.det /\ Equiv(par, seq))
 
